@@ -219,6 +219,22 @@ func (q *QGen) Regexp(fromName bool) *query.Regexp {
 	return &query.Regexp{Regexp: re, CaseSensitive: true}
 }
 
+// RegexpFromSrc makes a regexp atom from a source text (nil when it does not parse or
+// the reference engine cannot compile it) and registers the source with the evaluator.
+func (q *QGen) RegexpFromSrc(src string, caseSensitive bool) *query.Regexp {
+	re, err := syntax.Parse(src, RegexpFlags)
+	if err != nil {
+		return nil
+	}
+	q.Ev.mu.Lock()
+	q.Ev.Src[re] = src
+	q.Ev.mu.Unlock()
+	if _, _, p := Guard(func() { q.Ev.compile(re, caseSensitive) }); p {
+		return nil
+	}
+	return &query.Regexp{Regexp: re, CaseSensitive: caseSensitive}
+}
+
 func (q *QGen) scope(fn, ct *bool) {
 	switch q.G.R.IntN(4) {
 	case 0:
